@@ -1,3 +1,262 @@
-(* Properties_C10.v -- placeholder header; theorems are added below as they are proved. *)
-From Amgcl Require Import Scalar QcInst Vec Crs Kernels MatOps.
-Theorem C10_placeholder : True. Proof. exact I. Qed.
+(* Properties_C10.v -- C10: outputs are a function of the inputs only; no memory errors on
+   valid input.  Statements only; proofs live in the imported *Proofs.v files.
+
+   A3  ownership of the crs arrays (own_data)  : Own.v / OwnProofs.v       (C10_own_...)
+   A1  junk independence of the modelled kernels: JunkProofs.v and the proof files of the
+       groups that own the kernels                                           (C10_junk_...)
+   A2  bounds-checked re-statement of spmv/residual over flat arrays: LowLevel.v /
+       LowLevelProofs.v                                                      (C10_ll_...)
+   "any S" = for every Scalar record, IEEE floats with NaN payloads included. *)
+From Coq Require Import List.
+From Amgcl Require Import Scalar QcInst Vec Crs Kernels KernelsProofs MatOps MatOpsProofs Relax.
+From Amgcl Require Import Own OwnProofs Junk JunkProofs LowLevel LowLevelProofs.
+From Amgcl Require Import Aggregates Coarsen CoarsenProofs Direct DirectProofs Krylov KrylovProofs
+                          Cheby ChebyProofs Inverse InverseProofs Amg AmgProofs.
+Import ListNotations.
+Local Open Scope S_scope.
+
+(* ================================================================== A3: crs::own_data *)
+(* the invariant: every live library block is held by exactly one object and that object has
+   own_data = true; objects with own_data = false hold user memory or nothing; no double
+   free and no free of user memory has happened *)
+Theorem C10_own_init_inv : Inv init.
+Proof. exact Inv_init. Qed.
+Print Assumptions C10_own_init_inv.
+
+Theorem C10_own_step_preserves_inv (w : world) (o : op) : Inv w -> Inv (step w o).
+Proof. exact (step_preserves_Inv w o). Qed.
+Print Assumptions C10_own_step_preserves_inv.
+
+Theorem C10_own_reachable_inv (ops : list op) : Inv (run ops).
+Proof. exact (reachable_Inv ops). Qed.
+Print Assumptions C10_own_reachable_inv.
+
+(* after every sequence of constructions, copies, moves, assignments and destructions, once
+   the remaining objects are destroyed: no library block is left (no leak), none was freed
+   twice, no user block was freed, no object is left *)
+Theorem C10_own_no_leak_no_bad_free (ops : list op) :
+  let w := destroy_all (run ops) in
+  heap w = [] /\ leaks w = 0 /\ dfree w = 0 /\ ufree w = 0 /\ (forall k, find k w = None).
+Proof. exact (no_leak_no_bad_free ops). Qed.
+Print Assumptions C10_own_no_leak_no_bad_free.
+
+(* ... and at every intermediate moment *)
+Theorem C10_own_reachable_no_error (ops : list op) : dfree (run ops) = 0 /\ ufree (run ops) = 0.
+Proof. exact (reachable_no_error ops). Qed.
+Print Assumptions C10_own_reachable_no_error.
+
+Theorem C10_own_view_borrows_only (ops : list op) k o :
+  find k (run ops) = Some o -> own o = false -> forall b, arr o <> Some (Lib b).
+Proof. exact (reachable_view_borrows_only ops k o). Qed.
+Print Assumptions C10_own_view_borrows_only.
+
+Theorem C10_own_unique_owner (ops : list op) b :
+  In b (heap (run ops)) ->
+  exists k o, find k (run ops) = Some o /\ arr o = Some (Lib b) /\ own o = true /\
+    forall k' o', find k' (run ops) = Some o' -> arr o' = Some (Lib b) -> k' = k.
+Proof. exact (reachable_unique_holder ops b). Qed.
+Print Assumptions C10_own_unique_owner.
+
+(* ops on objects that do not exist (never created / already destroyed), and constructions
+   into a live id, are no-ops -- in both the current and the historical step function *)
+Theorem C10_own_absent_target_noop fixed w k j :
+  find k w = None ->
+  step_gen fixed w (CopyAssign k j) = w /\ step_gen fixed w (MoveAssign k j) = w /\
+  step_gen fixed w (Destroy k) = w.
+Proof. exact (absent_target_noop fixed w k j). Qed.
+Print Assumptions C10_own_absent_target_noop.
+
+Theorem C10_own_absent_source_noop fixed w k j :
+  find j w = None ->
+  step_gen fixed w (CopyCtor k j) = w /\ step_gen fixed w (MoveCtor k j) = w /\
+  step_gen fixed w (CopyAssign k j) = w /\ step_gen fixed w (MoveAssign k j) = w.
+Proof. exact (absent_source_noop fixed w k j). Qed.
+Print Assumptions C10_own_absent_source_noop.
+
+Theorem C10_own_live_target_ctor_noop fixed w k j u o :
+  find k w = Some o ->
+  step_gen fixed w (NewEmpty k) = w /\ step_gen fixed w (NewOwn k) = w /\
+  step_gen fixed w (NewView k u) = w /\
+  step_gen fixed w (CopyCtor k j) = w /\ step_gen fixed w (MoveCtor k j) = w.
+Proof. exact (live_target_ctor_noop fixed w k j u o). Qed.
+Print Assumptions C10_own_live_target_ctor_noop.
+
+(* HISTORICAL (before /repo 9a9c4a3, finding fixed): operator=(const crs&) left own_data
+   untouched; copy-assigning into a zero-copy view leaked the three new arrays.  Witness:
+   [NewView 0 u; NewOwn 1; CopyAssign 0 1; Destroy 0; Destroy 1] *)
+Theorem C10_own_copy_assign_old_leaks_refuted :
+  exists ops, leaks (destroy_all_gen false (run_gen false ops)) <> 0 /\
+              dfree (destroy_all_gen false (run_gen false ops)) = 0 /\
+              ufree (destroy_all_gen false (run_gen false ops)) = 0.
+Proof. exact copy_assign_old_leaks_refuted. Qed.
+Print Assumptions C10_own_copy_assign_old_leaks_refuted.
+
+(* ================================================================== A1: junk independence *)
+(* --- diagonal(A, invert) into uninitialised memory (any S); guard: every row has a diagonal *)
+Theorem C10_junk_diagonal (S : Scalar) (A : crs S) invert (junk1 junk2 : vec S) :
+  has_diag A = true -> diagonal A invert junk1 = diagonal A invert junk2.
+Proof. exact (diagonal_junk_independent A invert junk1 junk2). Qed.
+Print Assumptions C10_junk_diagonal.
+
+(* without the guard it is false (documented precondition, not a finding) *)
+Theorem C10_junk_diagonal_without_guard_refuted :
+  has_diag nodiag_A = false /\
+  exists inv j1 j2, diagonal nodiag_A inv j1 <> diagonal nodiag_A inv j2.
+Proof. exact diagonal_junk_dependent_refuted. Qed.
+Print Assumptions C10_junk_diagonal_without_guard_refuted.
+
+Theorem C10_junk_jacobi_setup (S : Scalar) (A : crs S) (j1 j2 : vec S) :
+  has_diag A = true -> jacobi_setup A j1 = jacobi_setup A j2.
+Proof. exact (jacobi_setup_junk_independent A j1 j2). Qed.
+Print Assumptions C10_junk_jacobi_setup.
+
+Theorem C10_junk_spai0_setup (S : Scalar) (A B : crs S) : rows A = rows B -> spai0_setup A = spai0_setup B.
+Proof. exact (spai0_setup_function_of_rows A B). Qed.
+Print Assumptions C10_junk_spai0_setup.
+
+Theorem C10_junk_jacobi_sweep_tmp (S : Scalar) (w : S) (dia : vec S) (A : crs S) (rhs x t1 t2 : vec S) :
+  length rhs = nrows A -> length t1 = nrows A -> length t2 = nrows A ->
+  jacobi_sweep w dia A rhs x t1 = jacobi_sweep w dia A rhs x t2.
+Proof. exact (jacobi_sweep_tmp_independent w dia A rhs x t1 t2). Qed.
+Print Assumptions C10_junk_jacobi_sweep_tmp.
+
+Theorem C10_junk_spai0_sweep_tmp (S : Scalar) (M : vec S) (A : crs S) (rhs x t1 t2 : vec S) :
+  length rhs = nrows A -> length t1 = nrows A -> length t2 = nrows A ->
+  spai0_sweep M A rhs x t1 = spai0_sweep M A rhs x t2.
+Proof. exact (spai0_sweep_tmp_independent M A rhs x t1 t2). Qed.
+Print Assumptions C10_junk_spai0_sweep_tmp.
+
+Theorem C10_junk_jacobi_apply_x (S : Scalar) (dia rhs x1 x2 : vec S) :
+  is_zero (@s0 S) = true -> length rhs = length dia -> length x1 = length dia -> length x2 = length dia ->
+  jacobi_apply dia rhs x1 = jacobi_apply dia rhs x2.
+Proof. exact (jacobi_apply_x_independent dia rhs x1 x2). Qed.
+Print Assumptions C10_junk_jacobi_apply_x.
+
+Theorem C10_junk_spai0_apply_x (S : Scalar) (M rhs x1 x2 : vec S) :
+  is_zero (@s0 S) = true -> length rhs = length M -> length x1 = length M -> length x2 = length M ->
+  spai0_apply M rhs x1 = spai0_apply M rhs x2.
+Proof. exact (spai0_apply_x_independent M rhs x1 x2). Qed.
+Print Assumptions C10_junk_spai0_apply_x.
+
+(* --- Ruge-Stuben (CoarsenProofs.v): after /repo 8cfa879 connect() writes every S.val cell *)
+Theorem C10_junk_rs_connect (S : Scalar) (eps eps_strong : S) (A : crs S) (j1 j2 : flags) :
+  rs_connect eps eps_strong A j1 = rs_connect eps eps_strong A j2.
+Proof. exact (rs_connect_junk_independent eps eps_strong A j1 j2). Qed.
+Print Assumptions C10_junk_rs_connect.
+
+Theorem C10_junk_rs_transfer (S : Scalar) (eps_strong eps_trunc : S) do_trunc (A : crs S) (j1 j2 : flags) :
+  rs_transfer eps_strong eps_trunc do_trunc A j1 = rs_transfer eps_strong eps_trunc do_trunc A j2.
+Proof. exact (rs_transfer_junk_independent eps_strong eps_trunc do_trunc A j1 j2). Qed.
+Print Assumptions C10_junk_rs_transfer.
+
+(* --- skyline LU (DirectProofs.v): the scratch vector y that survives between solves *)
+Theorem C10_junk_skyline_forward (S : Scalar) (f : skyline S) rhs (y y' : vec S) :
+  profile_wf (sk_n f) (sk_ptr f) -> length y = sk_n f -> length y' = sk_n f ->
+  sky_forward f rhs y = sky_forward f rhs y'.
+Proof. exact (sky_forward_junk_independent f rhs y y'). Qed.
+Print Assumptions C10_junk_skyline_forward.
+
+Theorem C10_junk_skyline_solve (S : Scalar) (f : skyline S) rhs x (y y' : vec S) :
+  profile_wf (sk_n f) (sk_ptr f) -> length y = sk_n f -> length y' = sk_n f ->
+  sky_solve f rhs x y = sky_solve f rhs x y'.
+Proof. exact (sky_solve_junk_independent f rhs x y y'). Qed.
+Print Assumptions C10_junk_skyline_solve.
+
+(* --- dense inverse (InverseProofs.v): the n*n work array t *)
+Theorem C10_junk_dense_inverse (S : Scalar) n (A t t' : vec S) :
+  length t = (n * n)%nat -> length t' = (n * n)%nat -> inverse n A t = inverse n A t'.
+Proof. exact (inverse_junk_independent n A t t'). Qed.
+Print Assumptions C10_junk_dense_inverse.
+
+(* --- Krylov workspaces (KrylovProofs.v): the result (iterations, residual, x) of a solve
+   does not depend on what a previous solve left in the work vectors *)
+Theorem C10_junk_cg (S : Scalar) (A P : vec S -> vec S) prm (f x0 : vec S) (j1 j2 : cg_ws) :
+  fst (cg A P prm f x0 j1) = fst (cg A P prm f x0 j2).
+Proof. exact (cg_junk_independent A P prm f x0 j1 j2). Qed.
+Print Assumptions C10_junk_cg.
+
+Theorem C10_junk_richardson (S : Scalar) (A P : vec S -> vec S) prm (f x0 : vec S) (j1 j2 : ri_ws) :
+  fst (richardson A P prm f x0 j1) = fst (richardson A P prm f x0 j2).
+Proof. exact (richardson_junk_independent A P prm f x0 j1 j2). Qed.
+Print Assumptions C10_junk_richardson.
+
+Theorem C10_junk_bicgstab (S : Scalar) (Hz : is_zero (@s0 S) = true)
+  (A P : vec S -> vec S) prm (f x0 : vec S) (j1 j2 : bs_ws) :
+  fst (bicgstab A P prm f x0 j1) = fst (bicgstab A P prm f x0 j2).
+Proof. exact (bicgstab_junk_independent Hz A P prm f x0 j1 j2). Qed.
+Print Assumptions C10_junk_bicgstab.
+
+(* --- Chebyshev (ChebyProofs.v): work vectors p, r (commutative ring) *)
+Theorem C10_junk_chebyshev_sweep (S : Scalar) (Srt : Sring S) (Seqb : seqb_spec S)
+  (c d : S) (M : option (list S)) degree (A : crs S) (b x p r p' r' : vec S) :
+  wf A = true -> length b = nrows A -> length x = nrows A ->
+  length p = nrows A -> length r = nrows A -> length p' = nrows A -> length r' = nrows A ->
+  (forall m, M = Some m -> length m = nrows A) ->
+  forall i, i < nrows A ->
+  vget (cheby_sweep (c, d, M) degree A b x p r) i = vget (cheby_sweep (c, d, M) degree A b x p' r') i.
+Proof. exact (cheby_sweep_junk_independent Srt Seqb c d M degree A b x p r p' r'). Qed.
+Print Assumptions C10_junk_chebyshev_sweep.
+
+Theorem C10_junk_chebyshev_sweep_Qc
+  (c d : QcS) (M : option (list QcS)) degree (A : crs QcS) (b x p r p' r' : vec QcS) :
+  wf A = true -> length b = nrows A -> length x = nrows A ->
+  length p = nrows A -> length r = nrows A -> length p' = nrows A -> length r' = nrows A ->
+  (forall m, M = Some m -> length m = nrows A) ->
+  forall i, i < nrows A ->
+  vget (cheby_sweep (c, d, M) degree A b x p r) i = vget (cheby_sweep (c, d, M) degree A b x p' r') i.
+Proof. exact (C10_junk_chebyshev_sweep QcS QcS_ring QcS_eqb c d M degree A b x p r p' r'). Qed.
+Print Assumptions C10_junk_chebyshev_sweep_Qc.
+
+(* --- amg::rebuild (AmgProofs.v): the hierarchy after a rebuild is the one a fresh build
+   with the same transfer operators gives, whatever matrices were installed before *)
+Theorem C10_amg_rebuild_history (S : Scalar) ce dc ml (cop : crs S -> crs S -> crs S -> crs S)
+  (Hc : coarse_shape cop) ts (M : crs S) (Ms : list (crs S)) (M' : crs S) :
+  Forall (fun X => nrows X = nrows M) Ms -> nrows M' = nrows M ->
+  amg_rebuild cop (fold_left (amg_rebuild cop) Ms (amg_init ce dc ml cop ts M)) M' =
+  amg_init ce dc ml cop ts M'.
+Proof. exact (amg_rebuild_history ce dc ml cop Hc ts M Ms M'). Qed.
+Print Assumptions C10_amg_rebuild_history.
+
+(* ================================================================== A2: bounds safety *)
+(* on well-formed flat arrays (ptr monotone from 0, ptr[n] = |col| = |val|, columns < m,
+   |x| = m, |y| = n) the checked spmv never leaves an array and is the model of Kernels.v *)
+Theorem C10_ll_spmv (S : Scalar) alpha (F : fcrs S) (x : vec S) beta (y : vec S) :
+  fwf F -> length x = fm F -> length y = fn F ->
+  ll_spmv alpha F x beta y = Ok (spmv alpha (unflat F) x beta y).
+Proof. exact (ll_spmv_ok alpha F x beta y). Qed.
+Print Assumptions C10_ll_spmv.
+
+Theorem C10_ll_spmv_no_oob (S : Scalar) alpha (F : fcrs S) (x : vec S) beta (y : vec S) :
+  fwf F -> length x = fm F -> length y = fn F -> ll_spmv alpha F x beta y <> ErrOOB.
+Proof. exact (ll_spmv_no_oob alpha F x beta y). Qed.
+Print Assumptions C10_ll_spmv_no_oob.
+
+Theorem C10_ll_residual (S : Scalar) (f : vec S) (F : fcrs S) (x r : vec S) :
+  fwf F -> length x = fm F -> length f = fn F -> length r = fn F ->
+  ll_residual f F x r = Ok (residual f (unflat F) x r).
+Proof. exact (ll_residual_ok f F x r). Qed.
+Print Assumptions C10_ll_residual.
+
+Theorem C10_ll_residual_no_oob (S : Scalar) (f : vec S) (F : fcrs S) (x r : vec S) :
+  fwf F -> length x = fm F -> length f = fn F -> length r = fn F -> ll_residual f F x r <> ErrOOB.
+Proof. exact (ll_residual_no_oob f F x r). Qed.
+Print Assumptions C10_ll_residual_no_oob.
+
+(* the list-of-rows view of well-formed arrays satisfies Crs.wf: the C07 formulas apply *)
+Theorem C10_ll_unflat_wf (S : Scalar) (F : fcrs S) :
+  fwf F -> wf (unflat F) = true /\ nrows (unflat F) = fn F /\ ncols (unflat F) = fm F.
+Proof. exact (unflat_wf F). Qed.
+Print Assumptions C10_ll_unflat_wf.
+
+(* non-vacuity: a well-formed flat matrix with an empty row; the checks reject bad input *)
+Example C10_ll_nonvacuous :
+  let F := (mkF 3 2 [0; 2; 2; 3] [0; 1; 1] [qc 2 1; qc (-1) 1; qc 5 1])%nat in
+  fwf F /\
+  ll_spmv (qc 1 1) F [qc 1 1; qc 3 1] (qc 2 1) [qc 1 1; qc 1 1; qc 1 1] = Ok [qc 1 1; qc 2 1; qc 17 1] /\
+  ll_spmv (qc 1 1) (mkF 1 1 [0; 1] [3] [qc 2 1])%nat [qc 1 1] (qc 0 1) [qc 0 1] = ErrOOB.
+Proof.
+  split; [|split; vm_compute; reflexivity].
+  unfold fwf; cbn. repeat split; try reflexivity.
+  - intros i Hi. destruct i as [|[|[|i]]]; cbn; auto with arith. inversion Hi as [|? H1]. inversion H1 as [|? H2]. inversion H2 as [|? H3]. inversion H3.
+  - intros c [<-|[<-|[<-|[]]]]; auto with arith.
+Qed.
